@@ -27,7 +27,8 @@ ASSUMPTIONS = ["reference = fresh ExactGP of the same class on concatenated data
                "KISS-GP compared at 1e-6 (interpolation + CG free: Cholesky sizes), others at 1e-8; fast_pred_var at full rank"]
 
 CTX = {"default": lambda: [], "fpv": lambda: [S.fast_pred_var()], "attach": lambda: [S.detach_test_caches(False)],
-       "fpv+attach": lambda: [S.fast_pred_var(), S.detach_test_caches(False)], "fps": lambda: [S.fast_pred_samples()]}
+       "fpv+attach": lambda: [S.fast_pred_var(), S.detach_test_caches(False)], "fps": lambda: [S.fast_pred_samples()],
+       "nolazy": lambda: [S.lazily_evaluate_kernels(False)], "eager0": lambda: [S.max_eager_kernel_size(0)]}
 
 
 @contextlib.contextmanager
@@ -39,6 +40,7 @@ def ctx(name):
 
 
 FAMS = {"exact": 1, "matern_ard": 2, "fixednoise": 1, "fixednoise_learn": 1, "multitask": 1, "kiss": 1}
+FAMS_THOROUGH = dict(FAMS, sumprod=1, linearmean=1, zeromean=1, multitask_r0=1, matern05=1, matern25_ard=2)
 
 
 def cells(tier, seed):
@@ -51,6 +53,16 @@ def cells(tier, seed):
             continue
         out.append({"fam": fam, "mb": list(mb), "fbp": fbp, "q": q, "pre": pre, "post": post, "depth": 3 if tier == "thorough" or fam == "exact" else 2})
     if tier == "thorough":
+        # deeper and wider: chains of four fantasies, three fantasy points, more kernels / means, a rank-2 model batch, eager / non-lazy kernels
+        have = {util.jdump(c) for c in out}
+        for fam, mb, fbp, q, pre, post in itertools.product(FAMS_THOROUGH, [(), (2,), (2, 1)], ["none", "per", "shared"], [1, 2, 3],
+                                                            ["default", "fpv", "nolazy"], posts + ["nolazy", "eager0"]):
+            if fam in ("kiss", "multitask", "multitask_r0") and mb:
+                continue
+            c = {"fam": fam, "mb": list(mb), "fbp": fbp, "q": q, "pre": pre, "post": post, "depth": 4 if fam in ("exact", "fixednoise_learn") else 3}
+            c3 = dict(c, depth=3)
+            if util.jdump(c) not in have and util.jdump(c3) not in have:
+                out.append(c)
         for post in ["fps"]:
             for q in (1, 2):
                 out.append({"fam": "kiss", "mb": [], "fbp": "none", "q": q, "pre": "default", "post": post, "depth": 2})
@@ -59,11 +71,11 @@ def cells(tier, seed):
 
 def make_data(cell, seed):
     fam, mb = cell["fam"], tuple(cell["mb"])
-    d = FAMS[fam]
+    d = FAMS_THOROUGH[fam]
     g = util.gen(seed, "c04|" + util.jdump({k: cell[k] for k in ("fam", "mb")}))
     n, m = 5, 3
     X = util.rand(g, *mb, n, d)
-    t = 2 if fam == "multitask" else None
+    t = 2 if fam.startswith("multitask") else None
     y = util.randn(g, *mb, n, t) if t else util.randn(g, *mb, n)
     Xs = util.rand(g, *mb, m, d)
     noise = 0.05 + 0.2 * util.rand(g, *mb, n) if fam.startswith("fixednoise") else None
@@ -162,7 +174,7 @@ def run_cell(cell, seed):
     fails = Fails()
     feats = {k: cell[k] for k in ("fam", "fbp", "q", "pre", "post")}
     feats["mb"] = len(mb)
-    d = FAMS[fam]
+    d = FAMS_THOROUGH[fam]
     tol = 1e-6 if fam == "kiss" else 1e-8
     X, y, Xs, noise = make_data(cell, seed)
     g = util.gen(seed, "c04f|" + util.jdump(cell))
@@ -171,7 +183,7 @@ def run_cell(cell, seed):
     src.eval()
     ops = 0
     notes = {"carried_caches_checked": 0}
-    mt = fam == "multitask"
+    mt = fam.startswith("multitask")
     with torch.no_grad() if "attach" not in cell["post"] else contextlib.nullcontext():
         predict(src, Xs, cell["pre"])
         ops += 1
